@@ -38,16 +38,25 @@ RULE = ('tables of 2-7 columns (quick: mostly 3-5) x 60-120 rows from a random c
         '`Bivariate.fit` raise ValueError) are counted as refused.  Unit stream: random and vine-shaped edge '
         'pairs (adjacent and malformed) for _identify_eds_ing / _check_constraint / is_adjacent / sort_edge / '
         '_get_constraints.')
-PARTIAL = ['prim_is_max_spanning_tree_partial: only the greedy-cut property of every Prim step is proved; the '
-           'exchange argument (maximum spanning tree) is search-supported (Kruskal weight multiset)',
-           'pairs_once for arbitrary regular vines: proved for center and direct vines; for regular vines the '
-           'checker isRegularVine (sound by isRegularVine_sound) is evaluated on every real fitted vine',
-           'NaN keys (np.argmax / sorted with NaN) are not modelled: Kendall matrices are NaN-free, uninitialised '
-           'np.empty cells that happen to be NaN make the harness cut the regular replay at that tree']
-ASSUMPTIONS = ['the tau matrices are data: the harness sends the matrix each Tree.fit received (snapshot)',
+PARTIAL = ['prim_is_max_spanning_tree_partial: proved = spanning tree + greedy-cut property of every Prim step; the '
+           'exchange argument (maximum total weight) is not formalised; search-supported (Kruskal weight multiset)',
+           'pairs_once for ARBITRARY regular vines (pairs_once_regular_partial): proved for center and direct vines '
+           '(and for any C-vine/D-vine shaped structure); for regular vines the sound checker isRegularVine is '
+           'evaluated on every real fitted vine instead',
+           'edge_theta_admissible: not a theorem about fit (that is C10/C11); every edge of every fitted vine is '
+           'checked against the generated check_theta tables (meaning: theta_admissible_iff) and the real check_theta',
+           'NaN keys (np.argmax / sorted() with NaN) are not modelled: Kendall matrices of fitted tables are NaN-free; '
+           'if an uninitialised np.empty cell of a k-th regular tree happens to be NaN the replay is cut at that tree '
+           '(counted in the histogram; structure still checked by isRegularVine)']
+ASSUMPTIONS = ['the tau matrices are DATA: the harness sends the matrix each Tree.fit received (snapshot taken by '
+               'wrapping Tree.fit in the harness process); theorems assume ChoicesOK: center - the |tau| keys of '
+               'column 0 exceed the NaN marker -10 (true of every real matrix, colOK_real); direct, first tree - '
+               'square matrix with entries > -10; regular - nothing',
                'pair-copula selection (select_copula) does not influence the structure; only (family, theta) '
                'admissibility is checked here (C10/C11/C17 cover the values)',
-               'Edge.index equals the position in Tree.edges (checked on every extracted vine)']
+               'Edge.index equals the position in Tree.edges (checked on every extracted vine)',
+               'a fit that does not return within 20 s (normal: < 1 s) is reported as non-terminating']
+TRUSTED_EXTRA = ['harness-side wrapper of Tree.fit that copies tau_matrix before the tree edits it in place']
 
 FIT_TIMEOUT_S = 20       # a fit takes < 1 s; only a non-terminating loop gets here
 FIT_TIMEOUT_AFTER_FIRST_S = 3
@@ -316,7 +325,7 @@ def table_input(X, vt, t):
 def run(ctx, lean):
     unit_corr(ctx, lean)
     rng = ctx.rng('tables')
-    n_tables = 60 * ctx.scale
+    n_tables = 80 * ctx.scale
     deep = ctx.tier == 'thorough'
     bad = {f'corr:train({vt})': None for vt in TYPES}
     bad.update({'corr:isRegularVine(real fitted vine)': None, 'corr:edge_theta_admissible': None,
@@ -384,7 +393,10 @@ def run(ctx, lean):
                         ctx.count(f'{vt}: k-th tree tau has uninitialised cells')
                 picks = picks_for(vt, k, real[k], n_nodes)
                 if picks is not None:
-                    tie_stats(ctx, vt, k, tau, picks, n_nodes, v.trees[k - 1].edges if k > 0 else None)
+                    try:
+                        tie_stats(ctx, vt, k, tau, picks, n_nodes, v.trees[k - 1].edges if k > 0 else None)
+                    except Exception:  # statistics only; malformed trees are reported by the obligations below
+                        ctx.count('tie statistics not computable (malformed tree)')
                 if picks is None:
                     note(f'corr:train({vt})', {'d': d, 't': t, 'tree': k,
                                                'problem': 'construction order not recognisable',
